@@ -189,13 +189,20 @@ func (r *NetconfResponse) record1dot1Chunks() error {
 
 		cursor++
 
+		if cursor >= len(d) {
+			return errNetconf1Dot1ParseError(
+				"unable to parse netconf response: data ends after chunk marker",
+			)
+		}
+
 		if d[cursor] == byte('#') {
 			break
 		}
 
 		var chunkSizeStr string
 
-		for chunkSizeLen := 0; chunkSizeLen <= maxChunkSizeCharLen; chunkSizeLen++ {
+		for chunkSizeLen := 0; chunkSizeLen <= maxChunkSizeCharLen &&
+			cursor+chunkSizeLen < len(d); chunkSizeLen++ {
 			if d[cursor+chunkSizeLen] == byte('\n') {
 				chunkSizeStr = string(d[cursor : cursor+chunkSizeLen])
 
@@ -218,6 +225,15 @@ func (r *NetconfResponse) record1dot1Chunks() error {
 					"unable to parse netconf response: unable to parse chunk size '%s': %s",
 					chunkSizeStr,
 					err,
+				),
+			)
+		}
+
+		if chunkSize < 0 || chunkSize > len(d)-cursor {
+			return errNetconf1Dot1ParseError(
+				fmt.Sprintf(
+					"unable to parse netconf response: chunk size %d exceeds remaining data",
+					chunkSize,
 				),
 			)
 		}
